@@ -40,10 +40,13 @@ def premise_tables(ctx, rule="T", mode="exact"):
     if mode == "exact":
         same = lambda got, exp: got == exp
         what = "ordinal %d"
+    elif mode == "class":
+        same = lambda got, exp: oracle.class_name_of(got) == oracle.class_name_of(exp)
+        what = "an ordinal in the class of %d"
     else:
         same = lambda got, exp: oracle.category_of(got) == oracle.category_of(exp)
         what = "an ordinal in the category of %d"
-    if mode in ("exact", "category"):
+    if mode in ("exact", "category", "class"):
         for m, v in sorted(flushes.items()):
             ok = m < len(FL) and same(FL[m], v)
             rep.ob(rule + ".flushes", "mask %#06x" % m, ok, "FLUSHES[%d] = %s, the flush/straight-flush class with these ranks has %s" % (m, FL[m] if m < len(FL) else "out of range", what % v), where + "/flushes.snip")
@@ -61,7 +64,7 @@ def premise_tables(ctx, rule="T", mode="exact"):
     asc = [j for j in range(len(PR) - 1) if not PR[j] < PR[j + 1]]
     rep.ob(rule + ".products", "strictly ascending", not asc, "PRODUCTS is not strictly ascending at index %s" % asc[:3], where + "/products.snip")
     rep.evals(len(PR))
-    if mode in ("exact", "category"):
+    if mode in ("exact", "category", "class"):
         missing = sorted(set(prod) - set(PR))
         extra = sorted(set(PR) - set(prod))
         rep.ob(rule + ".products", "membership", not missing and not extra, "PRODUCTS misses %s and has unexpected %s" % (missing[:3], extra[:3]), where + "/products.snip")
@@ -667,13 +670,20 @@ def premise_residual(ctx, fac, PR, rule="R", mode="exact"):
             got = cval(ctx.fold(resid, env))
         except IndexError as e:
             got = "panic(%s)" % e
-        okc = (got == c["ordinal"]) if mode == "exact" else (isinstance(got, int) and got != 0)
+        if mode == "exact":
+            okc = got == c["ordinal"]
+        elif mode == "class":
+            okc = isinstance(got, int) and oracle.class_name_of(got) == c["name"]
+        else:
+            okc = isinstance(got, int) and got != 0
         if not okc:
             bad += 1
             first = first or (c, got)
     if first:
         c, got = first
-        if mode == "exact":
+        if mode == "class":
+            msg = "a %s hand of class %s (ranks %s%s) is given value %s, which is named %s (%d classes)" % (c["cat"], c["name"], [oracle.RANK_CHARS[r] for r in c["ranks"]], " suited" if c["flush"] else "", got, oracle.class_name_of(got) if isinstance(got, int) else "?", bad)
+        elif mode == "exact":
             msg = "a %s hand (%s, ranks %s%s) is given value %s instead of %d; %d classes are mis-ranked" % (c["cat"], c["name"], [oracle.RANK_CHARS[r] for r in c["ranks"]], " suited" if c["flush"] else "", got, c["ordinal"], bad)
         else:
             msg = "a valid %s hand (ranks %s%s) is given value %s: validated ranking must be non-zero for every valid hand (%d classes)" % (c["cat"], [oracle.RANK_CHARS[r] for r in c["ranks"]], " suited" if c["flush"] else "", got, bad)
@@ -1104,7 +1114,11 @@ def bestof_loop(ctx, path, n, rule, need):
     X = calls[0]
     cand = X[2][0]
     ob("candidate-is-five", short(path), cand[0] == "agg" and cand[1] == ("adt", FIVE, 0), "the ranked candidate is not a five-card hand", where)
-    other_atoms = set(atoms_of(best2)) - {names[l_best][1]} - set(atoms_of(cand))
+    xa = atom("$x", "u16")
+    best2_x = substitute(best2, lambda nd: xa if nd is X else None)
+    stray = sorted(set(atoms_of(best2_x)) - {names[l_best][1], "$x"})
+    ob("value-only-update", short(path), not stray,
+       "the new best value depends on %s besides the best so far and the ranking of the current candidate (state carried between iterations, or the candidate's words read directly)" % stray, where)
     # decision table over the order types of (best so far, candidate value)
     batoms = [x[1] for x in arr_of(names[l_hand])]
     base_env = {"s%d" % i: 100 + i for i in range(n)}
@@ -1342,7 +1356,7 @@ def describe_cond(g):
     return "(%d conjunct(s) on the candidate/best values)" % len(g)
 
 
-NEED_MIN = {"iterates-table", "no-early-exit", "keeps-smallest-nonzero", "result-is-running-best", "initial-best",
+NEED_MIN = {"value-only-update", "iterates-table", "no-early-exit", "keeps-smallest-nonzero", "result-is-running-best", "initial-best",
             "candidate-from-row", "ranks-one-candidate", "candidate-is-five"}
 NEED_WITNESS = {"witness-follows-value", "witness-sorted", "result-is-running-best", "ranks-one-candidate", "candidate-from-row",
                 "candidate-is-five"}
